@@ -2,12 +2,14 @@
     Scope: the pure helpers of VerilogTransformer (ranges / bit names, sized constants, concatenation,
     declarations, port position table and io list) and the bench elaborator, transcribed in
     Model/VerilogElab.v.  The grammars (text -> tree) and passes 1..2 of VerilogTransformer.module are
-    covered by the differential oracle only; the full theorem would be
+    covered by the differential oracle only -- except for the bench format, whose TEXT level (lexer with lark's keyword /
+    NAME resolution and ignore rule, LALR parser) is transcribed in Model/BenchText.v (theorems C11_bench_lex_render ..
+    C11_bench_text_node_unique below); the full theorem would be
 
       verilog_sem : forall m lib bf c, elab_verilog m lib bf = Some c ->
                     forall stim, netlist_sem (resolve lib c) stim = module_sem lib m stim. *)
 From Coq Require Import List ZArith NArith Bool String Ascii.
-From KV Require Import Model.VerilogElab Proofs.VerilogElabProofs Proofs.BenchProofs.
+From KV Require Import Model.VerilogElab Proofs.VerilogElabProofs Proofs.BenchProofs Model.BenchText Proofs.BenchTextProofs.
 Import ListNotations.
 Local Open Scope list_scope.
 
@@ -87,3 +89,75 @@ Theorem C11_bench_node_unique : forall stmts c i j n m,
   elab_bench stmts = Some c -> nth_error (bc_nodes c) i = Some n -> nth_error (bc_nodes c) j = Some m ->
   bn_name n = bn_name m -> is_fork n = is_fork m -> i = j.
 Proof. exact bench_node_unique. Qed.
+
+(** *** bench.py from TEXT (Model/BenchText.v: parse_bench = lark's contextual lexer + LALR parser on bench.GRAMMAR,
+    None = lark raises; bench_of_text = parse_bench followed by BenchTransformer) *)
+
+(* white space / comment insensitivity: a token stream written with ANY ignored text (spaces, tabs, form feeds, "\n", "\r\n",
+   "#..\n" comments; a final comment without newline) before, between and after the tokens -- non-empty between two adjacent
+   words -- is lexed to exactly that token stream; so the parse result is a function of the token stream *)
+Theorem C11_bench_lex_render : forall s0 l t,
+  forallb (fun p => tok_ok (fst p)) l = true -> seps_ok s0 l t = true -> glue_ok l = true ->
+  lex (render s0 l t) = Some (map fst l).
+Proof. exact lex_render. Qed.
+Theorem C11_bench_parse_render : forall s0 l t,
+  forallb (fun p => tok_ok (fst p)) l = true -> seps_ok s0 l t = true -> glue_ok l = true ->
+  parse_bench (render s0 l t) = parse_toks (map fst l).
+Proof. exact parse_render. Qed.
+(* the token language: exactly the concatenations of  kw ( n , .. , n )  with kw one of INPUT input OUTPUT output, and
+   z = k ( n , .. , n )  with z not exactly a keyword (k and the n may be keywords); the statements are read off in order *)
+Theorem C11_bench_token_language : forall ts l,
+  parse_toks ts = Some l <-> exists tss, Forall2 stmt_toks l tss /\ ts = List.concat tss.
+Proof. exact parse_toks_iff. Qed.
+Theorem C11_bench_keyword_assignment_rejected : forall kw k a rest, is_kw kw = true ->
+  parse_toks (TWord kw :: TEq :: TWord k :: toks_params a ++ rest) = None.
+Proof. exact keyword_assignment_rejected. Qed.
+(* round trip: every statement list whose names are NAME tokens ([-_a-zA-Z0-9]+) and whose assigned names are not keywords *)
+Theorem C11_bench_parse_print : forall l, forallb wf_stmt l = true -> parse_bench (print_bench l) = Some l.
+Proof. exact parse_print. Qed.
+Theorem C11_bench_any_rendering : forall stmts tss s0 l t,
+  Forall2 stmt_toks stmts tss -> map fst l = List.concat tss ->
+  forallb (fun p => tok_ok (fst p)) l = true -> seps_ok s0 l t = true -> glue_ok l = true ->
+  parse_bench (render s0 l t) = Some stmts.
+Proof. exact parse_any_rendering. Qed.
+
+(* converse: the lexer accepts EXACTLY the renderings, the parser exactly the renderings of statement token groups *)
+Theorem C11_bench_lex_iff : forall s ts, lex s = Some ts <-> rendering s ts.
+Proof. exact lex_iff. Qed.
+Theorem C11_bench_language : forall s l, parse_bench s = Some l <->
+  exists ts tss, rendering s ts /\ Forall2 stmt_toks l tss /\ ts = List.concat tss.
+Proof. exact parse_bench_iff. Qed.
+
+(* C11_bench_wiring / C11_bench_node_unique starting from the text *)
+Theorem C11_bench_text_wiring : forall text stmts c z kind args,
+  parse_bench text = Some stmts -> bench_of_text text = Some c -> In (BAssign z kind args) stmts -> kind <> fork_kind ->
+  exists ci cell,
+    nth_error (bc_nodes c) ci = Some cell /\ bn_name cell = z /\ bn_kind cell = kind /\
+    List.length (bn_ins cell) = List.length args /\
+    (forall k a, nth_error args k = Some a ->
+       exists li l f, nth_error (bn_ins cell) k = Some (Some li) /\ nth_error (bc_lines c) li = Some l /\
+                      bl_rdr l = ci /\ bl_rpin l = k /\
+                      nth_error (bc_nodes c) (bl_drv l) = Some f /\ bn_kind f = fork_kind /\ bn_name f = a) /\
+    (exists lo l f, nth_error (bn_outs cell) 0 = Some (Some lo) /\ nth_error (bc_lines c) lo = Some l /\
+                    bl_drv l = ci /\ bl_dpin l = 0 /\
+                    nth_error (bc_nodes c) (bl_rdr l) = Some f /\ bn_kind f = fork_kind /\ bn_name f = z).
+Proof. exact bench_text_wiring. Qed.
+Theorem C11_bench_rendering_wiring : forall stmts tss s0 l t c z kind args,
+  Forall2 stmt_toks stmts tss -> map fst l = List.concat tss ->
+  forallb (fun p => tok_ok (fst p)) l = true -> seps_ok s0 l t = true -> glue_ok l = true ->
+  bench_of_text (render s0 l t) = Some c -> In (BAssign z kind args) stmts -> kind <> fork_kind ->
+  exists ci cell,
+    nth_error (bc_nodes c) ci = Some cell /\ bn_name cell = z /\ bn_kind cell = kind /\
+    List.length (bn_ins cell) = List.length args /\
+    (forall k a, nth_error args k = Some a ->
+       exists li l f, nth_error (bn_ins cell) k = Some (Some li) /\ nth_error (bc_lines c) li = Some l /\
+                      bl_rdr l = ci /\ bl_rpin l = k /\
+                      nth_error (bc_nodes c) (bl_drv l) = Some f /\ bn_kind f = fork_kind /\ bn_name f = a) /\
+    (exists lo l f, nth_error (bn_outs cell) 0 = Some (Some lo) /\ nth_error (bc_lines c) lo = Some l /\
+                    bl_drv l = ci /\ bl_dpin l = 0 /\
+                    nth_error (bc_nodes c) (bl_rdr l) = Some f /\ bn_kind f = fork_kind /\ bn_name f = z).
+Proof. exact bench_rendering_wiring. Qed.
+Theorem C11_bench_text_node_unique : forall text c i j n m,
+  bench_of_text text = Some c -> nth_error (bc_nodes c) i = Some n -> nth_error (bc_nodes c) j = Some m ->
+  bn_name n = bn_name m -> is_fork n = is_fork m -> i = j.
+Proof. exact bench_text_node_unique. Qed.
